@@ -328,7 +328,7 @@ Lemma escape_from_inv ao brk v p :
   (brk = true -> ao = true) ->
   sst ao v = Some (brk, K0, false) -> sst ao (escape_from v p brk) = Some (brk, K0, false).
 Proof.
-  intros Hao Hv. unfold escape_from.
+  intros Hao Hv. unfold escape_from. rewrite ?frev_eq.
   destruct (loop_inv ao brk Hao (List.length p) p (rev v) (rev v) K0 false) as [k' [d' [R1 [R2 R3]]]];
     try reflexivity.
   { unfold rs. now rewrite rev_involutive. }
@@ -347,8 +347,8 @@ Qed.
 (* ------------------------------------------------------------------ *)
 Lemma drop_suffix_Some suf s w : drop_suffix suf s = Some w -> s = w ++ suf.
 Proof.
-  unfold drop_suffix. destruct (drop_prefix (rev suf) (rev s)) as [r|] eqn:E; [|discriminate].
-  intro H. injection H as <-. apply drop_prefix_Some in E.
+  unfold drop_suffix. rewrite ?frev_eq. destruct (drop_prefix (rev suf) (rev s)) as [r|] eqn:E; [|discriminate].
+  intro H. injection H as <-. rewrite frev_eq. apply drop_prefix_Some in E.
   apply (f_equal (@rev N)) in E. rewrite rev_involutive, rev_app_distr, rev_involutive in E. exact E.
 Qed.
 
@@ -1196,7 +1196,7 @@ Proof.
   intros [H1 [H2 [Hv Ht]]].
   split; [exact (escape_from_inv true false v1 p (ff_imp true) H1)|].
   split; [exact (escape_from_inv true false v2 p (ff_imp true) H2)|].
-  unfold escape_from.
+  unfold escape_from. rewrite ?frev_eq.
   pose proof (rs_rev true v1) as S1. rewrite H1 in S1.
   pose proof (rs_rev true v2) as S2. rewrite H2 in S2.
   destruct (loop_view_safe (List.length p) p (rev v1) (rev v1) K0 false (le_n _) S1 (fun _ => eq_refl) eq_refl eq_refl) as [A1 B1].
@@ -1230,7 +1230,7 @@ Proof.
   intros [H1 [H2 [Hv Ht]]] Hs.
   split; [exact (escape_from_inv true true v1 s1 (fun _ => eq_refl) H1)|].
   split; [exact (escape_from_inv true true v2 s2 (fun _ => eq_refl) H2)|].
-  unfold escape_from.
+  unfold escape_from. rewrite ?frev_eq.
   pose proof (rs_rev true v1) as S1. rewrite H1 in S1.
   pose proof (rs_rev true v2) as S2. rewrite H2 in S2.
   destruct (loop_view (List.length s1) s1 (rev v1) (rev v1) K0 false (le_n _) S1 (fun _ => eq_refl) eq_refl eq_refl (jb_lri _)) as [A1 [J1 [L1 T1]]].
@@ -1265,7 +1265,7 @@ Proof.
   destruct (drop_suffix m_end v) as [w|] eqn:E.
   - left. exists w. split; [reflexivity|]. now apply drop_suffix_Some.
   - right. split; [reflexivity|]. intros l Hl. apply tmr_false in Hl as [r [Hr _]].
-    unfold drop_suffix in E. rewrite Hr in E. discriminate.
+    unfold drop_suffix in E. rewrite ?frev_eq in E. rewrite Hr in E. discriminate.
 Qed.
 
 Lemma drop_suffix_start_cases v :
@@ -1275,7 +1275,7 @@ Proof.
   destruct (drop_suffix m_start v) as [w|] eqn:E.
   - left. exists w. split; [reflexivity|]. now apply drop_suffix_Some.
   - right. split; [reflexivity|]. intros l Hl. apply tmr_true in Hl as [r [Hr _]].
-    unfold drop_suffix in E. rewrite Hr in E. discriminate.
+    unfold drop_suffix in E. rewrite ?frev_eq in E. rewrite Hr in E. discriminate.
 Qed.
 
 Lemma sr_rel v1 v2 : RelC v1 v2 -> RelO (sr v1) (sr v2).
